@@ -15,27 +15,47 @@ Local Open Scope N_scope.
 (* ------------------------------------------------------------------ observations *)
 
 (* how the implementation's read loop ended *)
-Inductive oend := EEof | EErr | EHdr | EPanic | EHang.
+(* EHuge: the harness stopped the read loop before a ReadMessage call whose (corrupted) length
+   prefix would make dbin allocate more than the harness' cap *)
+Inductive oend := EEof | EErr | EHdr | EPanic | EHang | EHuge.
 Definition oend_matches (o : oend) (m : outcome) : bool :=
   match o, m with
-  | EEof, OEOF | EErr, OErr | EHdr, OHdr => true
+  | EEof, OEOF | EErr, OErr | EHdr, OHdr | EHuge, OFuel => true
   | _, _ => false
   end.
 Definition oend_crashed (o : oend) : bool :=
   match o with EPanic | EHang => true | _ => false end.
 
-(* an item delivered by a read of a damaged file: identical to item number i of the clean read
-   (the harness compares with proto.Equal / bytes.Equal), or something else *)
-Inductive item := IRef (i : N) | IAlt (raw : str).
+(* an item delivered by a read of a damaged file:
+     IRef i   identical to item number i of the clean read (the harness compares raw messages
+              with bytes.Equal and blocks with proto.Equal);
+     IMod i   (raw messages only) original message i with exactly one byte changed, same length;
+     IAlt l h anything else, reported by its length and a position-weighted byte sum (to keep
+              the case files small) *)
+Inductive item := IRef (i : N) | IMod (i : N) | IAlt (len : N) (hash : N).
+Definition wsum (m : str) : N := fst (fold_left (fun ai c => (fst ai + c * snd ai, snd ai + 1)) m (0, 1)).
 
 Inductive fault := FTrunc (n : N) | FCorrupt (p : N) (v : N).
 
-(* one fault and what the implementation did: header content type the reader reported, the raw
-   messages its framing delivered (hook: readMessage with the identity decoder), how that ended;
-   the blocks Read() delivered, how that ended *)
+(* sets of faults, to keep the case files small:
+     TR lo hi      every cut point lo <= n < hi
+     CV p lo hi    offset p, every new value lo <= v <= hi other than the byte that is there
+     CO lo hi mask every offset lo <= p <= hi, new value = old value xor mask *)
+Inductive frange := TR (lo hi : N) | CV (p lo hi : N) | CO (plo phi mask : N).
+
+(* the content type the reader reported: the original one; none (the reader could not be
+   opened); CSlice = the bytes of the damaged file that its own (damaged) header announces as the
+   content type (version 1: offset 7, length = bytes 5..6; version 0: offset 5, length 3);
+   another one *)
+Inductive octype := CSame | CNone | CSlice | COther (s : str).
+
+(* a set of faults on which the implementation showed one and the same behaviour: content type,
+   the raw messages its framing delivered (hook: readMessage with the identity decoder) and how
+   that read ended; the blocks Read() delivered and how that ended *)
 Record fobs := mkFobs {
-  fo_fault : fault;
-  fo_ctype : option str;
+  fo_faults : list frange;
+  fo_reads : option N;   (* Some n: the harness allowed n ReadMessage calls only (the end is then EHuge) *)
+  fo_ctype : octype;
   fo_raw : list item; fo_raw_end : oend;
   fo_blk : list item; fo_blk_end : oend }.
 
@@ -45,13 +65,17 @@ Inductive fobsres := QBlock (it : item) | QNotFound | QErr | QNil | QPanic.
 Record query := mkQuery { q_num : N; q_id : str; q_res : fobsres }.
 
 Inductive c16_case :=
-  (* blocks, proto.Marshal of each (None = error), writer: file bytes + ok, panicked;
-     reader on that file: content type, blocks + end, metas + end *)
-| CRound (bs : list blk) (encs : list (option str)) (file : str) (wok : bool) (wpanic : bool)
-         (o_ct : option str) (o_blks : list blk) (o_end : oend)
-         (o_metas : list bmeta) (o_mend : oend)
-  (* content type, messages, file bytes as written, input blocks, clean read; faults *)
-| CFault (ct : str) (ms : list str) (file : str) (orig clean : list blk) (fs : list fobs)
+  (* blocks, proto.Marshal of each (None = error), writer: length and weighted sum of the file
+     bytes + ok, panicked; reader on that file: content type, blocks + end, metas + end.  A
+     delivered block / meta is None when the harness found it identical (proto.Equal / field by
+     field) to the input block at the same position / its meta *)
+| CRound (bs : list blk) (encs : list (option str)) (flen fsum : N) (wok : bool) (wpanic : bool)
+         (o_ct : option str) (o_blks : list (option blk)) (o_end : oend)
+         (o_metas : list (option bmeta)) (o_mend : oend)
+  (* content type, messages, length and weighted sum of the file as written, input blocks, clean
+     read (None = identical to the input block at that position); faults *)
+| CFault (ct : str) (ms : list str) (flen fsum : N) (orig : list blk) (clean : list (option blk))
+         (fs : list fobs)
   (* number, id, parent id, LIB, suffix; name built; TruncateBlockID of both ids;
      ParseFilename(name); panicked *)
 | CName (num : N) (id parent : str) (lib : N) (suffix : str)
@@ -81,7 +105,8 @@ Fixpoint find_msg (ms : list str) (m : str) (i : N) : option N :=
 Definition item_eqb (a b : item) : bool :=
   match a, b with
   | IRef i, IRef j => i =? j
-  | IAlt x, IAlt y => eqb_list x y
+  | IMod i, IMod j => i =? j
+  | IAlt l1 h1, IAlt l2 h2 => (l1 =? l2) && (h1 =? h2)
   | _, _ => false
   end.
 
@@ -90,7 +115,7 @@ Fixpoint is_prefix_refs (its : list item) (i : N) : bool :=
   match its with
   | [] => true
   | IRef j :: r => (j =? i) && is_prefix_refs r (i + 1)
-  | IAlt _ :: _ => false
+  | _ :: _ => false
   end.
 
 (* ------------------------------------------------------------------ round trip *)
@@ -156,16 +181,29 @@ Fixpoint round_ok (orig got : list blk) (e : oend) : bool :=
 Definition all_some_nonempty (encs : list (option str)) : bool :=
   forallb (fun e => match e with Some (_ :: _) => true | _ => false end) encs.
 
-Definition round_verdict bs encs file wok wpanic o_ct o_blks o_end o_metas o_mend : N :=
+(* resolve "identical to the input at this position" *)
+Fixpoint resolve {A} (dflt : list A) (got : list (option A)) : list A :=
+  match got with
+  | [] => []
+  | Some x :: r => x :: resolve (tl dflt) r
+  | None :: r => match dflt with d :: _ => d :: resolve (tl dflt) r | [] => [] end
+  end.
+Definition resolved_ok {A} (dflt : list A) (got : list (option A)) : bool :=
+  lenN (resolve dflt got) =? lenN got.
+
+Definition round_verdict bs encs (flen fsum : N) wok wpanic o_ct o_blks_c o_end o_metas_c o_mend : N :=
   if wpanic || oend_crashed o_end || oend_crashed o_mend then 4 else
+  let o_blks := resolve bs o_blks_c in
+  let o_metas := resolve (map meta_of bs) o_metas_c in
   let penc := enc_lookup bs encs in
-  let '(mfile, mw) := write_all penc bs in
+  let '(file, mw) := write_all penc bs in
   let mok := match mw with WOk => true | WErr => false end in
-  let wr := eqb_list mfile file && Bool.eqb mok wok in
+  let wr := (lenN file =? flen) && (wsum file =? fsum) && Bool.eqb mok wok in
   let '(mh, mbl, mo) := read_file (model_dec_block bs encs) file in
   let '(mh2, mml, mo2) := read_file (model_dec_meta bs encs) file in
   let rd := ostr_eqb (option_map h_ctype mh) o_ct && list_eqb blk_eqb mbl o_blks && oend_matches o_end mo &&
-            list_eqb meta_eqb mml o_metas && oend_matches o_mend mo2 in
+            list_eqb meta_eqb mml o_metas && oend_matches o_mend mo2 &&
+            resolved_ok bs o_blks_c && resolved_ok (map meta_of bs) o_metas_c in
   let m := wr && rd in
   (* the property's quantifier: the sequence was written (non-empty, first block has a type
      URL, every block marshals to a non-empty message) *)
@@ -181,6 +219,19 @@ Definition apply_fault (file : str) (f : fault) : str :=
   | FCorrupt p v => corrupt file (N.to_nat p) v
   end.
 
+Fixpoint seqN (lo : N) (n : nat) : list N :=
+  match n with O => [] | S k => lo :: seqN (lo + 1) k end.
+
+Definition expand (file : str) (r : frange) : list fault :=
+  match r with
+  | TR lo hi => map FTrunc (seqN lo (N.to_nat (hi - lo)))
+  | CV p lo hi =>
+      let old := nth (N.to_nat p) file 256 in
+      map (FCorrupt p) (filter (fun v => negb (v =? old)) (seqN lo (N.to_nat (hi + 1 - lo))))
+  | CO plo phi mask =>
+      map (fun p => FCorrupt p (N.lxor (nth (N.to_nat p) file 0) mask)) (seqN plo (N.to_nat (phi + 1 - plo)))
+  end.
+
 (* number of frames that end at or before offset p *)
 Fixpoint frames_before (ms : list str) (off p : N) : N :=
   match ms with
@@ -189,14 +240,31 @@ Fixpoint frames_before (ms : list str) (off p : N) : N :=
               if e <=? p then 1 + frames_before r e p else 0
   end.
 
-(* the reference rule shared with the harness: a delivered message identical to the original
-   message at the same position is IRef position; otherwise the first identical original
-   message; otherwise the raw bytes *)
+Fixpoint diff_count (a b : str) : option N :=
+  match a, b with
+  | [], [] => Some 0
+  | x :: a', y :: b' =>
+      match diff_count a' b' with
+      | Some n => Some (if x =? y then n else n + 1)
+      | None => None
+      end
+  | _, _ => None
+  end.
+
+(* the reference rule shared with the harness *)
+Definition ref_other (ms : list str) (pos : N) (at_pos : option str) (g : str) : item :=
+  match find_msg ms g 0 with
+  | Some i => IRef i
+  | None =>
+      match at_pos with
+      | Some m => match diff_count m g with Some 1 => IMod pos | _ => IAlt (lenN g) (wsum g) end
+      | None => IAlt (lenN g) (wsum g)
+      end
+  end.
 Definition ref_of (ms : list str) (pos : N) (g : str) : item :=
   match nthN ms pos with
-  | Some m => if eqb_list m g then IRef pos
-              else match find_msg ms g 0 with Some i => IRef i | None => IAlt g end
-  | None => match find_msg ms g 0 with Some i => IRef i | None => IAlt g end
+  | Some m => if eqb_list m g then IRef pos else ref_other ms pos (Some m) g
+  | None => ref_other ms pos None g
   end.
 Fixpoint raw_items (ms : list str) (got : list str) (pos : N) : list item :=
   match got with
@@ -211,22 +279,42 @@ Fixpoint blk_consistent (raw blk : list item) : bool :=
   match blk, raw with
   | [], _ => true
   | b :: br, r :: rr =>
-      (match r with IRef i => item_eqb b (IRef i) | IAlt _ => true end) && blk_consistent rr br
+      (match r with IRef i => item_eqb b (IRef i) | _ => true end) && blk_consistent rr br
   | _ :: _, [] => false
   end.
 
 Definition oend_eqb (a b : oend) : bool :=
   match a, b with
-  | EEof, EEof | EErr, EErr | EHdr, EHdr | EPanic, EPanic | EHang, EHang => true
+  | EEof, EEof | EErr, EErr | EHdr, EHdr | EPanic, EPanic | EHang, EHang | EHuge, EHuge => true
   | _, _ => false
   end.
 
-Definition fault_verdict (ct : str) (ms : list str) (file : str) (nclean : N) (o : fobs) : N :=
-  if oend_crashed (fo_raw_end o) || oend_crashed (fo_blk_end o) then 4 else
-  let f := apply_fault file (fo_fault o) in
-  let '(mh, mraw, mo) := read_file (fun m => Some m) f in
+Definition octype_matches (ct : str) (f : str) (o : octype) (m : option header) : bool :=
+  match o, m with
+  | CNone, None => true
+  | CSame, Some h => eqb_list (h_ctype h) ct
+  | CSlice, Some h =>
+      let sl := if nth 4 f 1 =? 0 then firstn 3 (skipn 5 f)
+                else firstn (N.to_nat (be_val (firstn 2 (skipn 5 f)))) (skipn 7 f) in
+      eqb_list (h_ctype h) sl && negb (eqb_list (h_ctype h) ct)
+  | COther s, Some h => eqb_list (h_ctype h) s && negb (eqb_list s ct)
+  | _, _ => false
+  end.
+
+Definition fault_verdict (ct : str) (ms : list str) (file : str) (nclean : N) (o : fobs) (flt : fault) : N :=
+  let f := apply_fault file flt in
+  let '(mh, mraw, mo) :=
+    match fo_reads o with
+    | None => read_file (fun m => Some m) f
+    | Some n =>
+        match read_header f with
+        | None => (None, [], OHdr)
+        | Some (h, s1) =>
+            let '(l, e) := read_loop (fun m => Some m) (N.to_nat n) s1 in (Some h, l, e)
+        end
+    end in
   let m :=
-    ostr_eqb (option_map h_ctype mh) (fo_ctype o) &&
+    octype_matches ct f (fo_ctype o) mh &&
     list_eqb item_eqb (raw_items ms mraw 0) (fo_raw o) && oend_matches (fo_raw_end o) mo &&
     blk_consistent (fo_raw o) (fo_blk o) &&
     (if lenN (fo_blk o) <? lenN (fo_raw o) then oend_eqb (fo_blk_end o) EErr
@@ -234,15 +322,19 @@ Definition fault_verdict (ct : str) (ms : list str) (file : str) (nclean : N) (o
   (* the property, from the block-level observation alone *)
   let pre := is_prefix_refs (fo_blk o) 0 && (lenN (fo_blk o) <=? nclean) in
   let intact_upto :=
-    match fo_fault o with
+    match flt with
     | FTrunc n => frames_before ms (N.of_nat (header_len ct)) n
     | FCorrupt p _ => frames_before ms (N.of_nat (header_len ct)) p
     end in
   let intact := is_prefix_refs (firstn (N.to_nat intact_upto) (fo_blk o)) 0 &&
                 (N.min intact_upto nclean <=? lenN (fo_blk o)) in
-  let strict := match fo_fault o with FTrunc _ => pre && intact | FCorrupt _ _ => intact end in
+  let strict := match flt with FTrunc _ => pre && intact | FCorrupt _ _ => intact end in
   if negb strict then 5 else
   (if m then 0 else 1) + (if pre then 0 else 2).
+
+Definition group_verdicts (ct : str) (ms : list str) (file : str) (nclean : N) (o : fobs) : list N :=
+  if oend_crashed (fo_raw_end o) || oend_crashed (fo_blk_end o) then [4] else
+  map (fault_verdict ct ms file nclean o) (flat_map (expand file) (fo_faults o)).
 
 Fixpoint agg (cs : list N) (has4 has5 : bool) (bits : N) : N :=
   match cs with
@@ -253,12 +345,14 @@ Fixpoint agg (cs : list N) (has4 has5 : bool) (bits : N) : N :=
       else agg r has4 has5 (N.lor bits c)
   end.
 
-Definition faults_verdict ct ms file orig clean fs : N :=
+Definition faults_verdict ct ms (flen fsum : N) orig clean_c fs : N :=
+  let file := file_bytes ct ms in
+  let clean := resolve orig clean_c in
   let base :=
-    (if eqb_list file (file_bytes ct ms) then 0 else 1) +
+    (if (lenN file =? flen) && (wsum file =? fsum) && resolved_ok orig clean_c then 0 else 1) +
     (* the reference list itself: the clean read is the input (the property's round trip) *)
     (if round_ok orig clean (if existsb unsupported_legacy orig then EErr else EEof) then 0 else 2) in
-  agg (base :: map (fault_verdict ct ms file (lenN clean)) fs) false false 0.
+  agg (base :: flat_map (group_verdicts ct ms file (lenN clean)) fs) false false 0.
 
 (* ------------------------------------------------------------------ names *)
 
@@ -317,7 +411,7 @@ Definition query_verdict (store : list (str * str)) (msgs : list str) (ids : lis
         | FBlock raw, QBlock it =>
             (match find_msg msgs raw 0 with
              | Some i => item_eqb it (IRef i)
-             | None => match it with IAlt _ => true | IRef _ => false end
+             | None => match it with IRef _ => false | _ => true end
              end)
         | FBlock raw, QErr => (* the message does not decode as a block *)
             (match find_msg msgs raw 0 with Some _ => false | None => true end)
@@ -333,7 +427,7 @@ Definition query_verdict (store : list (str * str)) (msgs : list str) (ids : lis
             | Some (n, id) => (n =? q_num q) && has_suffix (q_id q) (truncate_id id)
             | None => false
             end
-        | QBlock (IAlt _) => false
+        | QBlock _ => false
         | QErr | QNil => damaged
         | QPanic => false
         end in
@@ -368,9 +462,9 @@ Definition merged_query_verdict (nums : list N) (q : query) : N :=
 
 Definition c16_verdict (k : c16_case) : N :=
   match k with
-  | CRound bs encs file wok wpanic o_ct o_blks o_end o_metas o_mend =>
-      round_verdict bs encs file wok wpanic o_ct o_blks o_end o_metas o_mend
-  | CFault ct ms file orig clean fs => faults_verdict ct ms file orig clean fs
+  | CRound bs encs flen fsum wok wpanic o_ct o_blks o_end o_metas o_mend =>
+      round_verdict bs encs flen fsum wok wpanic o_ct o_blks o_end o_metas o_mend
+  | CFault ct ms flen fsum orig clean fs => faults_verdict ct ms flen fsum orig clean fs
   | CName num id parent lib suffix o_name o_tid o_tparent o_parsed panic =>
       name_verdict num id parent lib suffix o_name o_tid o_tparent o_parsed panic
   | CParse s o_parsed o_re panic => parse_verdict s o_parsed o_re panic
